@@ -219,6 +219,13 @@ async def _run_script(ctx, inv, ev, script):
                 return None
         elif op == 'sleep':
             await inv.sleep(_val(ctx, st[1]))
+        elif op == 'switch':
+            # one handler object that serves several event types (registered on '*'): the sub-script of the event's type runs
+            sub = st[1].get(type(ev).__name__) if ev is not None else None
+            if sub is not None:
+                r = await _run_script(ctx, inv, ev, sub)
+                if any(x[0] in ('ret', 'ret_exc') for x in sub):
+                    return r
         elif op == 'spawn':
             t = asyncio.ensure_future(_run_script(ctx, inv, ev, st[1]))
             ctx.spawned = getattr(ctx, 'spawned', []) + [t]
